@@ -9,3 +9,5 @@ import SpecVerif.Props.C12
 import SpecVerif.Props.C06
 import SpecVerif.Props.C09
 import SpecVerif.Props.C10
+import SpecVerif.Props.C19
+import SpecVerif.Props.C20
